@@ -83,8 +83,11 @@ Step(ln) ==
   \/ IsOp("Serialize") /\ Holds(ln.a[1]) /\ ret' = 1 /\ UNCHANGED <<live, item, client, bad, grows>>   \* reads only
 
 (* reallocations this call cost are charged to the container it operated on (C12: logarithmic growth) *)
+(* the allocator refused a request of this call: it must report failure and leave everything as it was *)
+Refused(ln) == /\ l' = l + 1 /\ ln.ret = 0 /\ ret' = 0 /\ UNCHANGED <<live, item, client, bad, grows>>
+
 TOp == /\ l <= Len(TraceLog) /\ Ln.e = "op"
-       /\ Step(Ln)
+       /\ IF Ln.x > 0 THEN Refused(Ln) ELSE Step(Ln)
        /\ StateMatches(Ln)
        /\ (Judge = "C12" /\ Ln.name \in {"Push", "MovePush", "Set", "MapAdd", "AddChunk"}) => Ln.re = grows'[Ln.a[1]] - grows[Ln.a[1]]
        /\ (Judge = "C12" /\ Ln.name \in {"Replace", "Get"}) => Ln.re = 0
